@@ -6,7 +6,11 @@ ROOT = os.path.dirname(os.path.dirname(os.path.abspath(__file__)))
 props = [json.loads(l) for l in open(os.path.join(ROOT, "properties.jsonl"))]
 reg = json.load(open(os.path.join(ROOT, "tools", "registry.json")))
 import glob
+_en = os.path.join(ROOT, "tools", "registry.d", "enabled.txt")
+enabled = set(open(_en).read().split()) if os.path.exists(_en) else set()
 for frag in sorted(glob.glob(os.path.join(ROOT, "tools", "registry.d", "*.json"))):
+    if os.path.basename(frag) not in enabled:
+        continue
     fr = json.load(open(frag))
     reg["checks"].update(fr.get("checks", {}))
     reg.setdefault("engines", []).extend(fr.get("engines", []))
